@@ -363,7 +363,10 @@ def run_standin_task(task):
         from .lemma import StandinCtx
         S = StandinCtx(name, tier, seed)
         fn(S)
-        return {'name': name, 'bounds': S.bounds, 'cases': S.cases, 'failures': S.failures[:10],
+        distinct = {}
+        for fl in S.failures:
+            distinct.setdefault(fl['id'], fl)          # one witness per distinct failure id (none is dropped)
+        return {'name': name, 'bounds': S.bounds, 'cases': S.cases, 'failures': list(distinct.values())[:500],
                 'failures_n': len(S.failures), 'note': S.note, 'wall_s': round(time.time() - t0, 2)}
     except Exception:
         return {'name': name, 'crash': traceback.format_exc()}
